@@ -13,6 +13,12 @@ Verdict(c) ==
     ELSE IF \E j \in 1..(Len(c.result) - 1) : c.result[j] >= c.result[j + 1] THEN <<"increasing", c.result>>
     ELSE IF \E j \in 1..Len(c.result) : c.result[j] < 0 \/ c.result[j] > c.n - 2 THEN <<"range", c.result>>
     ELSE IF ~c.exempt_interior /\ \E j \in 1..Len(c.result) : c.result[j] < 1 THEN <<"interior", c.result>>
+    ELSE IF c.sparse THEN
+        (LET exp == MKSparse(0, c.n, c.t2, c.tab)
+         IN IF Unknown \in exp THEN <<"ok">>
+            ELSE IF exp = {} /\ c.result # <<>> THEN <<"empty-gate", c.result>>
+            ELSE IF {c.result[j] : j \in 1..Len(c.result)} = exp THEN <<"ok">>
+            ELSE <<"decomposition", c.result, exp>>)
     ELSE IF (c.n <= c.t2 \/ ~c.C[1][c.n + 1]) /\ c.result # <<>> THEN <<"empty-gate", c.result>>
     ELSE IF UsesUnknown(0, c.n, c.t2, c.K, c.C) THEN <<"ok">>          \* a needed table entry could not be computed
     ELSE LET exp == MKSet(0, c.n, c.t2, c.K, c.C)
